@@ -129,6 +129,48 @@ def _run_one(args):
         shutil.rmtree(d, ignore_errors=True)
 
 
+def seeded_changes(prop: str) -> List[Dict[str, Any]]:
+    """seeded breaking changes (written by independent sub-agents, confirmed by hand) that this
+    property's check is recorded to detect: /verif/seeded/<id>/{patch.diff, meta.json}"""
+    import json
+
+    root = os.path.join(os.path.dirname(os.path.dirname(os.path.abspath(__file__))), "seeded")
+    out = []
+    if not os.path.isdir(root):
+        return out
+    for sid in sorted(os.listdir(root)):
+        mp = os.path.join(root, sid, "meta.json")
+        pp = os.path.join(root, sid, "patch.diff")
+        if os.path.isfile(mp) and os.path.isfile(pp):
+            meta = json.load(open(mp))
+            if prop in meta.get("detected_by", []):
+                out.append({"id": sid, "patch": pp, "meta": meta})
+    return out
+
+
+def _run_seeded(args):
+    import subprocess
+
+    prop, repo_root, sc = args
+    from .check import run_property
+
+    d = make_scratch(repo_root)
+    try:
+        r = subprocess.run(["patch", "-p1", "-s", "-d", d, "-i", sc["patch"]], capture_output=True, text=True)
+        if r.returncode != 0:
+            return {"id": sc["id"], "status": "inapplicable", "why": (r.stdout + r.stderr).strip()[:200]}
+        try:
+            res = run_property(prop, d)
+        except AnalysisError as e:
+            return {"id": sc["id"], "status": "analysis-error", "why": str(e)[:300]}
+        return {"id": sc["id"], "status": "ran", "keys": [list(k) for k in sorted(res.finding_keys())],
+                "messages": {str(list(f.key())): f.message[:200] for f in res.findings}}
+    except Exception:
+        return {"id": sc["id"], "status": "crash", "why": traceback.format_exc()[-400:]}
+    finally:
+        shutil.rmtree(d, ignore_errors=True)
+
+
 def run_selftest(prop: str, repo_root: str, base_res, seed: int = 0, jobs: int = 16,
                  only: Optional[List[str]] = None) -> Dict[str, Any]:
     from .mutants import catalogue
@@ -205,9 +247,33 @@ def run_selftest(prop: str, repo_root: str, base_res, seed: int = 0, jobs: int =
         rows.append(row)
     if muts and n_inapp > len(muts) // 2 and not base:
         broken.append("more than half of the catalogue (%d/%d) does not apply to the current source" % (n_inapp, len(muts)))
+    # seeded breaking changes recorded as detected by this property's check
+    seeded_rows = []
+    n_seed = n_seed_ok = 0
+    if not only:
+        for sc in seeded_changes(prop):
+            o = _run_seeded((prop, repo_root, sc))
+            row = {"seeded": sc["id"], "status": o["status"], "needs": sc["meta"].get("needs_to_manifest", "")[:120]}
+            if o["status"] == "inapplicable":
+                row["why"] = o["why"]
+            elif o["status"] != "ran":
+                broken.append("seeded change %s: analyser gave up / crashed: %s" % (sc["id"], o.get("why", "")[:200]))
+                n_seed += 1
+            else:
+                n_seed += 1
+                new = [k for k in map(tuple, o["keys"]) if k not in base]
+                if new:
+                    n_seed_ok += 1
+                    row["verdict"] = "reported"
+                    row["finding"] = {"rule": new[0][1], "function": new[0][3], "message": o["messages"].get(str(list(new[0])), "")}
+                else:
+                    row["verdict"] = "MISSED"
+                    broken.append("seeded change %s (breaks %s) is no longer reported" % (sc["id"], prop))
+            seeded_rows.append(row)
     return {
         "catalogue": len(muts), "fault_mutants": n_fault, "fault_reported": n_fault_ok,
         "neutral_mutants": n_neutral, "neutral_silent": n_neutral_ok, "inapplicable": n_inapp,
+        "seeded_changes": n_seed, "seeded_reported": n_seed_ok, "seeded_rows": seeded_rows,
         "wall_s": round(time.time() - t0, 2), "seed": seed, "rows": rows, "broken": broken,
         "rule": "fault variants must add a finding (of the declared rule) to the findings of the unmodified tree; "
                 "neutral variants must add none; edits are made on scratch copies removed after each run",
